@@ -35,6 +35,7 @@ Consume == l' = l + 1
 Is(name) == l <= Len(TraceLog) /\ E.ev = name
 Bind(m, k, v) == [x \in DOMAIN m \cup {k} |-> IF x = k THEN v ELSE m[x]]
 Known(t) == t \in DOMAIN tmap /\ tmap[t] \in DOMAIN acts
+Bound(t) == t \in DOMAIN tmap      \* the caller may have returned already (its goroutines live on)
 Cand(t, k, pcs) == {i \in DOMAIN acts : acts[i].par = tmap[t] /\ acts[i].key = k /\ acts[i].pc \in pcs}
 StOK(k, st, o) == CASE st = "nil" -> res[k] = "nil"
                     [] st = "done" -> res[k] = "done"
@@ -106,24 +107,24 @@ EvStart(hit) ==
   /\ Same /\ Consume
 
 EvLoad ==
-  /\ Is("run.load") /\ Known(E.t) /\ StOK(E.k, E.st, E.o)
+  /\ Is("run.load") /\ Bound(E.t) /\ StOK(E.k, E.st, E.o)
   /\ \E i \in Cand(E.t, E.k, {"load"}) : acts[i].async = E.flag /\ Load(i)
   /\ Same /\ Consume
 
 EvCasWin ==
-  /\ Is("cas.win") /\ Known(E.t) /\ res[E.k] = "nil"
+  /\ Is("cas.win") /\ Bound(E.t) /\ res[E.k] = "nil"
   /\ \E i \in Cand(E.t, E.k, {"cas"}) :
        /\ acts[i].async = E.flag /\ Cas(i)
        /\ tmap' = Bind(tmap, E.callee, i) /\ omap' = Bind(omap, E.o, i)
   /\ Consume
 
 EvCasLose ==
-  /\ Is("cas.lose") /\ Known(E.t) /\ res[E.k] # "nil"
+  /\ Is("cas.lose") /\ Bound(E.t) /\ res[E.k] # "nil"
   /\ \E i \in Cand(E.t, E.k, {"cas"}) : Cas(i)
   /\ Same /\ Consume
 
 EvReload ==
-  /\ Is("run.reload") /\ Known(E.t) /\ StOK(E.k, E.st, E.o)
+  /\ Is("run.reload") /\ Bound(E.t) /\ StOK(E.k, E.st, E.o)
   /\ \E i \in Cand(E.t, E.k, {"reload"}) : acts[i].async = E.flag /\ Reload(i)
   /\ Same /\ Consume
 
@@ -153,17 +154,17 @@ EvPanicReset == Is("panic.reset") /\ Known(E.t) /\ PanicReset(tmap[E.t]) /\ Same
 EvPanicCancel == Is("panic.cancel") /\ Known(E.t) /\ PanicCancel(tmap[E.t]) /\ Same /\ Consume
 
 EvCycle ==
-  /\ Is("cycle") /\ Known(E.t)
+  /\ Is("cycle") /\ Bound(E.t)
   /\ \E i \in Cand(E.t, E.k, {"chk"}) : CheckCycle(i, SimpleOf(PathOf(E)))
   /\ Same /\ Consume
 
 EvWake(why) ==
-  /\ Is(IF why = "done" THEN "wake.done" ELSE "wake.ctx") /\ Known(E.t)
+  /\ Is(IF why = "done" THEN "wake.done" ELSE "wake.ctx") /\ Bound(E.t)
   /\ \E i \in Cand(E.t, E.k, {"wait"}) : Wake(i, why)
   /\ Same /\ Consume
 
 EvWaitReload ==
-  /\ Is("wait.reload") /\ Known(E.t) /\ StOK(E.k, E.st, E.o)
+  /\ Is("wait.reload") /\ Bound(E.t) /\ StOK(E.k, E.st, E.o)
   /\ \E i \in Cand(E.t, E.k, {"wreload"}) : WaitReload(i)
   /\ Same /\ Consume
 
